@@ -4,6 +4,7 @@
 use vstd::prelude::*;
 verus! {
 //@include inc/c03_sighash_env.rs
+//@include inc/c03_cache_assumed.rs
 
 // ---- environment specific to the legacy message (ASSUMED contracts on std / sibling code) ----------------------------
 pub struct IoError;
